@@ -143,6 +143,14 @@ def run_case(case):
         r1 = run_from(w, ps, Y)
         trans += 1
         vs += compare_tail(root, dict(t=np.array(r1.model.t), a=arrays(r1)), k, f"{case['name']} dt={case['dt']!r} state of {Y} used after all other states had been saved", 1e-10, "saved-states-interfere")
+        if k % 3 == 0:
+            # the same parameter set (with its saved state) is used for a second run
+            r1b = run_from(w, ps, Y)
+            trans += 1
+            a1, a2 = arrays(r1), arrays(r1b)
+            bad = [kk for kk in a1 if not np.array_equal(a1[kk], a2[kk], equal_nan=True)]
+            if bad:
+                vs.append(V("saved-state-consumed-by-first-use", f"{case['name']} dt={case['dt']!r}: second run from the parameter set holding the state of {Y} differs from the first in {bad[0]}", None))
         if len(vs) >= 3:
             break
     del saved
